@@ -2,11 +2,17 @@
 
 #include "ccl/rslang/RSGenerator.h"
 
+#include <algorithm>
 #include <stack>
 
 namespace ccl::rslang {
 
 void Normalizer::Normalize(SyntaxTree::Node& root) {
+  if (!isInitialized) {
+    // Note: first call is made for the root of the tree
+    isInitialized = true;
+    CollectLocalNames(root);
+  }
   switch (root.token.id) {
   default: break;
   case TokenID::FORALL:
@@ -38,6 +44,15 @@ void Normalizer::Normalize(SyntaxTree::Node& root) {
   }
 }
 
+void Normalizer::CollectLocalNames(const SyntaxTree::Node& root) {
+  if (root.token.id == TokenID::ID_LOCAL) {
+    userLocals.emplace(root.token.data.ToText());
+  }
+  for (Index child = 0; child < root.ChildrenCount(); ++child) {
+    CollectLocalNames(root(child));
+  }
+}
+
 void Normalizer::Quantifier(SyntaxTree::Node& quant) {
   if (quant(0).token.id == TokenID::NT_ENUM_DECL) {
     EnumDeclaration(quant);
@@ -52,8 +67,8 @@ void Normalizer::Declarative(SyntaxTree::Node& root) {
   if (root(0).token.id != TokenID::NT_TUPLE_DECL) {
     return;
   }
+  // Note: domain expression is not in the scope of declared variables
   const auto newName = ProcessTupleDeclaration(root(0));
-  SubstituteTupleVariables(root(1), newName);
   SubstituteTupleVariables(root(2), newName);
 }
 
@@ -78,13 +93,12 @@ void Normalizer::Imperative(SyntaxTree::Node& root) {
     if (declRoot(0).token.id != TokenID::NT_TUPLE_DECL) {
       continue;
     }
+    // Note: scope of declared variables is the resulting expression and subsequent blocks
     const auto newName = ProcessTupleDeclaration(declRoot(0));
-    for (Index child2 = 0; child2 < root.ChildrenCount(); ++child2) {
-      if (child2 != child) {
-        SubstituteTupleVariables(root(child2), newName);
-      }
+    SubstituteTupleVariables(root, 0, newName);
+    for (auto child2 = static_cast<Index>(child + 1); child2 < root.ChildrenCount(); ++child2) {
+      SubstituteTupleVariables(root, child2, newName);
     }
-    SubstituteTupleVariables(root, newName);
   }
 }
 
@@ -113,7 +127,7 @@ void Normalizer::TupleDeclaration(
 
 std::string Normalizer::ProcessTupleDeclaration(SyntaxTree::Node& root) {
   tupleSubstitutes.clear();
-  std::string newName{ '@' };
+  std::vector<std::string> names{};
 
   std::stack<const SyntaxTree::Node*> nodeStack{};
   std::stack<std::vector<Index>> pathStack{};
@@ -126,7 +140,7 @@ std::string Normalizer::ProcessTupleDeclaration(SyntaxTree::Node& root) {
     nodeStack.pop();
     if (curNode->token.id == TokenID::ID_LOCAL) {
       const auto& name = curNode->token.data.ToText();
-      newName += name;
+      names.emplace_back(name);
       tupleSubstitutes.insert({ name, curPath });
     } else if (const auto childCount = curNode->ChildrenCount(); childCount > 0) {
       for (auto child = static_cast<Index>(childCount - 1); child >= 0; --child) {
@@ -137,6 +151,17 @@ std::string Normalizer::ProcessTupleDeclaration(SyntaxTree::Node& root) {
       }
     }
   }
+
+  // Note: concatenation identifies the tuple only if every name is a single symbol: (a,bc) vs (ab,c)
+  const auto needSeparator = std::any_of(begin(names), end(names),
+    [](const std::string& name) noexcept { return size(name) != 1; });
+  std::string newName{ '@' };
+  for (const auto& name : names) {
+    if (needSeparator && size(newName) > 1) {
+      newName += ',';
+    }
+    newName += name;
+  }
   root.RemoveAll();
   root.token.data = TokenData{ newName };
   root.token.id = TokenID::ID_LOCAL;
@@ -145,18 +170,22 @@ std::string Normalizer::ProcessTupleDeclaration(SyntaxTree::Node& root) {
 
 void Normalizer::SubstituteTupleVariables(SyntaxTree::Node& target, const std::string& newName) {
   for (Index child = 0; child < target.ChildrenCount(); ++child) {
-    if (target(child).token.id != TokenID::ID_LOCAL) {
-      SubstituteTupleVariables(target(child), newName);
-    } else {
-      const auto& localName = target(child).token.data.ToText();
-      if (tupleSubstitutes.contains(localName)) {
-        const auto& indexes = tupleSubstitutes.at(localName);
-        target(child).token.data = TokenData{ newName };
-        for (const auto prIndex : indexes) {
-          target.ExtendChild(child, TokenID::SMALLPR);
-          target(child).token.pos = target(child)(0).token.pos;
-          target(child).token.data = TokenData{ std::vector<Index>{ prIndex } };
-        }
+    SubstituteTupleVariables(target, child, newName);
+  }
+}
+
+void Normalizer::SubstituteTupleVariables(SyntaxTree::Node& target, const Index child, const std::string& newName) {
+  if (target(child).token.id != TokenID::ID_LOCAL) {
+    SubstituteTupleVariables(target(child), newName);
+  } else {
+    const auto& localName = target(child).token.data.ToText();
+    if (tupleSubstitutes.contains(localName)) {
+      const auto& indexes = tupleSubstitutes.at(localName);
+      target(child).token.data = TokenData{ newName };
+      for (const auto prIndex : indexes) {
+        target.ExtendChild(child, TokenID::SMALLPR);
+        target(child).token.pos = target(child)(0).token.pos;
+        target(child).token.data = TokenData{ std::vector<Index>{ prIndex } };
       }
     }
   }
@@ -203,8 +232,10 @@ void Normalizer::SubstituteArgs(SyntaxTree::Node& target, const StrRange pos) {
       std::string newName{};
       const auto iter = nameSubstitutes.find(oldName);
       if (iter == std::end(nameSubstitutes)) {
-        ++localVarBase;
-        newName = R"(__var)" + std::to_string(localVarBase);
+        do { // Note: generated name should not capture variables of the calling expression
+          ++localVarBase;
+          newName = R"(__var)" + std::to_string(localVarBase);
+        } while (userLocals.contains(newName));
         nameSubstitutes.insert(make_pair(oldName, newName));
       } else {
         newName = iter->second;
